@@ -77,14 +77,64 @@ def _lambda_op(model, site):
         return None
     for sub in ast.walk(mod.tree):
         if isinstance(sub, ast.Lambda) and sub.lineno == line and sub.col_offset == col:
-            params = [a.arg for a in sub.args.args]
-            b = sub.body
-            if isinstance(b, ast.BinOp) and isinstance(b.left, ast.Name) and isinstance(b.right, ast.Name):
-                return type(b.op).__name__, [params.index(b.left.id), params.index(b.right.id)]
-            if isinstance(b, ast.UnaryOp) and isinstance(b.operand, ast.Name):
-                return type(b.op).__name__, [params.index(b.operand.id)]
-            if isinstance(b, ast.Compare) and len(b.ops) == 1 and isinstance(b.left, ast.Name) and isinstance(b.comparators[0], ast.Name):
-                return "cmp:" + type(b.ops[0]).__name__, [params.index(b.left.id), params.index(b.comparators[0].id)]
+            return _expr_op([a.arg for a in sub.args.args], sub.body)
+    return None
+
+
+def _expr_op(params, b):
+    if isinstance(b, ast.BinOp) and isinstance(b.left, ast.Name) and isinstance(b.right, ast.Name) and b.left.id in params and b.right.id in params:
+        return type(b.op).__name__, [params.index(b.left.id), params.index(b.right.id)]
+    if isinstance(b, ast.UnaryOp) and isinstance(b.operand, ast.Name) and b.operand.id in params:
+        return type(b.op).__name__, [params.index(b.operand.id)]
+    if isinstance(b, ast.Compare) and len(b.ops) == 1 and isinstance(b.left, ast.Name) and isinstance(b.comparators[0], ast.Name) and b.left.id in params and b.comparators[0].id in params:
+        return "cmp:" + type(b.ops[0]).__name__, [params.index(b.left.id), params.index(b.comparators[0].id)]
+    return None
+
+
+def _func_op(model, v):
+    """The same for a module-level ``def f(a, b): return a <op> b``."""
+    fi = fi_of_term(model, v)
+    if fi is None:
+        return None
+    body = [st for st in fi.node.body if not (isinstance(st, ast.Expr) and isinstance(st.value, ast.Constant))]
+    if len(body) != 1 or not isinstance(body[0], ast.Return) or body[0].value is None:
+        return None
+    return _expr_op([a.arg for a in fi.node.args.args], body[0].value)
+
+
+def _dispatch_lookup(t, op_subject):
+    """(table display, True) when ``t`` is ``TABLE[type(op)]`` / ``TABLE.get(type(op)[, None])`` on a literal table."""
+    table = key = None
+    if t[0] == "idx":
+        table, key = t[1], t[2]
+    elif t[0] == "call" and t[1][0] == "attr" and t[1][2] == "get" and t[2] and (len(t[2]) == 1 or strip_sites(t[2][1]) == ("const", "None")):
+        table, key = t[1][1], t[2][0]
+    if table is None or table[0] != "display" or table[1] != "dict":
+        return None
+    ks = strip_sites(key)
+    sub = strip_sites(op_subject)
+    if (ks[0] == "call" and ks[1] == ("builtin", "type") and ks[2] == (sub,)) or ks == ("attr", sub, "__class__"):
+        return table
+    return None
+
+
+def row_atom(t, name, op_subject):
+    """Truth of ``TABLE.get(type(op)) is [not] None`` / ``type(op) [not] in TABLE`` for the operator ``name``; else None."""
+    ts = strip_sites(t)
+    if ts[0] != "op" or len(ts[2]) != 2:
+        return None
+    if ts[1] in ("cmp:Is", "cmp:IsNot") and ts[2][1] == ("const", "None"):
+        table = _dispatch_lookup(ts[2][0], op_subject)
+        if table is None:
+            return None
+        present = any(k_ == ("attr", ("module", "ast"), name) for k_, v_ in table[2])
+        return (not present) if ts[1] == "cmp:Is" else present
+    if ts[1] in ("cmp:In", "cmp:NotIn") and ts[2][1][0] == "display" and ts[2][1][1] == "dict":
+        sub = strip_sites(op_subject)
+        ks = ts[2][0]
+        if (ks[0] == "call" and ks[1] == ("builtin", "type") and ks[2] == (sub,)) or ks == ("attr", sub, "__class__"):
+            present = any(k_ == ("attr", ("module", "ast"), name) for k_, v_ in ts[2][1][2])
+            return present if ts[1] == "cmp:In" else (not present)
     return None
 
 
@@ -96,30 +146,23 @@ def undispatch(model, t, opname, op_subject):
     if not isinstance(t, tuple) or not t:
         return t
     if t[0] == "call":
-        callee = t[1]
-        table, key = None, None
-        if callee[0] == "idx":
-            table, key = callee[1], callee[2]
-        elif callee[0] == "call" and callee[1][0] == "attr" and callee[1][2] == "get" and callee[2]:
-            table, key = callee[1][1], callee[2][0]
-        if table is not None and table[0] == "display" and table[1] == "dict":
-            ks = strip_sites(key)
-            is_type_of = (ks[0] == "call" and ks[1] == ("builtin", "type") and ks[2] == (strip_sites(op_subject),)) or ks == ("attr", strip_sites(op_subject), "__class__")
-            if is_type_of:
-                for k_, v_ in table[2]:
-                    if k_ == ("attr", ("module", "ast"), opname):
-                        args = [undispatch(model, a, opname, op_subject) for a in t[2]]
-                        if v_[0] == "attr" and v_[1] == ("module", "operator") and v_[2] in OPERATOR_FUNCS:
-                            name, swapped = OPERATOR_FUNCS[v_[2]]
-                            if swapped:
-                                args = args[::-1]
-                            return ("op", name, tuple(args))
-                        if v_[0] == "lambda":
-                            lo = _lambda_op(model, v_[1])
-                            if lo is not None and len(lo[1]) == len(args):
-                                return ("op", lo[0], tuple(args[i] for i in lo[1]))
-                        return ("unk", "dispatch:" + show(v_, 40))
-                return ("unk", "no-row:" + opname)
+        table = _dispatch_lookup(t[1], op_subject)
+        if table is not None:
+            for k_, v_ in table[2]:
+                if k_ == ("attr", ("module", "ast"), opname):
+                    args = [undispatch(model, a, opname, op_subject) for a in t[2]]
+                    if v_[0] == "attr" and v_[1] == ("module", "operator") and v_[2] in OPERATOR_FUNCS:
+                        name, swapped = OPERATOR_FUNCS[v_[2]]
+                        if swapped:
+                            args = args[::-1]
+                        return ("op", name, tuple(args))
+                    lo = _lambda_op(model, v_[1]) if v_[0] == "lambda" else _func_op(model, v_)
+                    if lo is not None and len(lo[1]) == len(args):
+                        return ("op", lo[0], tuple(args[i] for i in lo[1]))
+                    return ("unk", "dispatch:" + show(v_, 40))
+            return ("unk", "no-row:" + opname)
+    if t[0] == "op":
+        return ("op", t[1], tuple(undispatch(model, x, opname, op_subject) for x in t[2]))
     if t[0] in ("phi",):
         return (t[0], tuple(undispatch(model, x, opname, op_subject) for x in t[1]))
     return t
@@ -142,13 +185,9 @@ def optable(run, model, rule="C06.optable"):
                 ops = _isinstance_op(ts, subject)
                 if ops is not None:
                     return name in ops
-                # ``TABLE.get(type(node.op)) is None`` / ``type(node.op) not in TABLE``: is there a row for this operator?
-                if ts[0] == "op" and ts[1] in ("cmp:Is", "cmp:IsNot") and ts[2][1] == ("const", "None") and ts[2][0][0] == "call" and ts[2][0][1][0] == "attr" and ts[2][0][1][2] == "get" and ts[2][0][1][1][0] == "display":
-                    present = any(k_ == ("attr", ("module", "ast"), name) for k_, v_ in ts[2][0][1][1][2])
-                    return (not present) if ts[1] == "cmp:Is" else present
-                if ts[0] == "op" and ts[1] in ("cmp:In", "cmp:NotIn") and ts[2][1][0] == "display" and ts[2][1][1] == "dict":
-                    present = any(k_ == ("attr", ("module", "ast"), name) for k_, v_ in ts[2][1][2])
-                    return present if ts[1] == "cmp:In" else (not present)
+                ra = row_atom(t, name, subject)
+                if ra is not None:
+                    return ra
                 return _placeholder_false(t)
 
             feas = [p for p in ps if tables.feasible(p, ev)]
@@ -203,19 +242,7 @@ def optable(run, model, rule="C06.optable"):
             if d.name == name:
                 return flow.def_term(d)
         return None
-    names = [d.name for d in flow.node_defs.get(head.id, [])]
-    op_name = comp_name = None
-    for d in flow.node_defs.get(head.id, []):
-        t = strip_sites(flow.def_term(d))
-        # (comparator_node, op) = elem(zip)  possibly under enumerate
-        s = show(t)
-        if s.endswith("[1]") and "zip" in s and not s.endswith("[0][1]") or s.endswith("[1][1]"):
-            op_name = d.name
-        if s.endswith("[0]") and "zip" in s and d.name != op_name:
-            comp_name = d.name
-    if op_name is None:
-        raise AnalysisError("%s: the loop variables over zip(comparators, ops) were not recognised (%s)" % (fi.qual, names))
-    OP = flow.def_term([d for d in flow.node_defs[head.id] if d.name == op_name][0])
+    OP = _compare_op_term(fi, flow, head)
     left_name = None
     for cls in ast.cmpop.__subclasses__():
         name = cls.__name__
@@ -225,11 +252,12 @@ def optable(run, model, rule="C06.optable"):
             ops = _isinstance_op(ts, strip_sites(OP))
             if ops is not None:
                 return name in ops
+            ra = row_atom(t, name, OP)
+            if ra is not None:
+                return ra
             v = _placeholder_false(t)
             if v is not None:
                 return v
-            if ts[0] == "param" or ts[0] == "phi":
-                return None
             return None
 
         feas = [p for p in ps if tables.feasible(p, ev) and not (p.outcome and p.outcome[0] == "raise")]
@@ -262,6 +290,21 @@ def optable(run, model, rule="C06.optable"):
         run.check(bad is None, rule, construct, "ast.%s -> left %s comparator" % (name, name), bad or "", fi.loc(head), None, name)
 
 
+def _compare_op_term(fi, flow, head):
+    """The term of the loop variable that holds the operator node in ``for ... in zip(node.comparators, node.ops)``."""
+    names = [d.name for d in flow.node_defs.get(head.id, [])]
+    op_name = None
+    for d in flow.node_defs.get(head.id, []):
+        t = strip_sites(flow.def_term(d))
+        # (comparator_node, op) = elem(zip)  possibly under enumerate
+        s = show(t)
+        if s.endswith("[1]") and "zip" in s and not s.endswith("[0][1]") or s.endswith("[1][1]"):
+            op_name = d.name
+    if op_name is None:
+        raise AnalysisError("%s: the loop variables over zip(comparators, ops) were not recognised (%s)" % (fi.qual, names))
+    return flow.def_term([d for d in flow.node_defs[head.id] if d.name == op_name][0])
+
+
 def chain_and_lazy_compare(run, model, rule_chain="C06.chain", rule_lazy="C07.lazy"):
     fi = model.method("_recompute", "Visitor", "visit_Compare")
     flow = get_flow(model, fi)
@@ -274,6 +317,10 @@ def chain_and_lazy_compare(run, model, rule_chain="C06.chain", rule_lazy="C07.la
     start = [t for k, t in head.succ if k == "T"][0]
     after = set(t.id for k, t in head.succ if k == "F")
     ps = tables.paths(flow, start, {head.id} | after, stop_at_loops=True)
+    try:
+        OP = _compare_op_term(fi, flow, head)
+    except AnalysisError:
+        OP = None
     # the running left operand: the local first bound to visit(node.left)
     left_var = None
     for lst in flow.node_defs.values():
@@ -285,6 +332,11 @@ def chain_and_lazy_compare(run, model, rule_chain="C06.chain", rule_lazy="C07.la
     for holds in (True, False):
         for last in (True, False):
             def ev(t, holds=holds, last=last):
+                if OP is not None:
+                    ra = row_atom(t, "Lt", OP)  # the Lt row stands for the operator dispatch
+                    if ra is not None:
+                        return ra
+                    t = undispatch(model, t, "Lt", OP)
                 ts = strip_sites(t)
                 v = _placeholder_false(t)
                 if v is not None:
